@@ -326,3 +326,59 @@ func Harness_C16_DeltaAddTable() {
 		nd.Assert("delta:added-table-reference-typed", strings.Count(out, "\n  r integer,") == 1)
 	}
 }
+
+// Creation script for tables with TWO reference columns (r and s) that may point at
+// tables of different depth: every referenced table is defined first, whichever column
+// is visited last, and each reference gets its foreign key.
+//
+//verif:shard-quick 4 4
+//verif:shard-thorough 8 8
+func Harness_C16_CreateTwoReferences() {
+	n := c16N()
+	tables := map[string]*sysl.Type{}
+	refR := make([]int, n)
+	refS := make([]int, n)
+	for i := 0; i < n; i++ {
+		tag := string(rune('0' + i))
+		tl := nd.SymRange("tline"+tag, 1, 40)
+		cols := map[string]*sysl.Type{}
+		cols["id"] = c16Prim(sysl.Type_INT, 1, 0, "pk")
+		refR[i] = nd.IntRange("refr"+tag, -1, i-1)
+		refS[i] = nd.IntRange("refs"+tag, -1, i-1)
+		if refR[i] >= 0 {
+			cols["r"] = c16Ref(c16Tables[refR[i]], "id", 2)
+		} else {
+			cols["r"] = c16Prim(sysl.Type_STRING, 2, 30)
+		}
+		if refS[i] >= 0 {
+			cols["s"] = c16Ref(c16Tables[refS[i]], "id", 3)
+		} else {
+			cols["s"] = c16Prim(sysl.Type_STRING, 3, 30)
+		}
+		cols["v"] = c16Prim(sysl.Type_STRING, 4, 0)
+		tables[c16Tables[i]] = c16Table(tl, cols)
+	}
+	v := MakeDatabaseScriptView("t", nil)
+	out := v.GenerateDatabaseScriptCreate(tables, "postgres", "App")
+	pos := make([]int, n)
+	for i := 0; i < n; i++ {
+		hdr := "CREATE TABLE " + c16Tables[i] + "(\n"
+		nd.Assert("create2:each-table-once", strings.Count(out, hdr) == 1)
+		pos[i] = strings.Index(out, hdr)
+	}
+	nd.Assert("create2:no-extra-table", strings.Count(out, "CREATE TABLE ") == n)
+	for i := 0; i < n; i++ {
+		if pos[i] < 0 {
+			continue
+		}
+		up := strings.ToUpper(c16Tables[i])
+		if refR[i] >= 0 {
+			nd.Assert("create2:referenced-table-first", pos[refR[i]] >= 0 && pos[refR[i]] < pos[i])
+			nd.Assert("create2:foreign-key", strings.Count(out, "CONSTRAINT "+up+"_R_FK FOREIGN KEY(r) REFERENCES "+c16Tables[refR[i]]+" (id)") == 1)
+		}
+		if refS[i] >= 0 {
+			nd.Assert("create2:referenced-table-first", pos[refS[i]] >= 0 && pos[refS[i]] < pos[i])
+			nd.Assert("create2:foreign-key", strings.Count(out, "CONSTRAINT "+up+"_S_FK FOREIGN KEY(s) REFERENCES "+c16Tables[refS[i]]+" (id)") == 1)
+		}
+	}
+}
